@@ -283,13 +283,13 @@ CHECKS["C17"] = {
             "f*G' - g*F' == f*G - g*F exactly (i128); a second reduction of an Ok result is the identity in both versions. "
             "Inputs: the committed witnesses of the known finding first; n in {2,...,1024}, (f,g) Gaussian of the key-generation "
             "width and of widths 0.6..6, (F,G) = (F0,G0) + k*(f,g) with |F0|,|G0| <= 127 and k dense/sparse/spiky/zero of magnitude "
-            "2^2..2^20 (also (F,G) shorter than (f,g): tiny (F0,G0) with k = 0, and truncated fractions c*(f,g)), scaled until all coefficients are below 2^24, never (F,G) = 0; plus the PRODUCTION inputs captured by a hook "
+            "2^2..2^20 (also (F,G) shorter than (f,g): tiny (F0,G0) with k = 0, and truncated fractions c*(f,g)), scaled until all coefficients are below 2^24, incl. (F,G) = 0 and quotients k that are single terms c*x^j or a dense even part plus c*x; a field-level leg (u32-field, hooks) checks the 30-bit prime field underneath the 32-bit version exactly: element operations against i128 arithmetic on all pairs of ~120 boundary operands (powers of two +-1 up to 2^30, the modulus and its half, 16-bit edges) and random operands of every bit length, and its transforms (round trip, product against a schoolbook product) on single terms of every magnitude, even-part-plus-c*x, constants and random polynomials for n = 2..1024; plus the PRODUCTION inputs captured by a hook "
             "event at the call site inside key generation (unreduced pairs of size about 2^20). An Err is classified as the known "
             "finding babai-tie-cycle only with its certificate (both versions Err with identical states; three consecutive calls "
             "give S1, S2, S1, S1 != S2; equation preserved); any other Err, disagreement, equation or idempotence failure is a "
             "violation. distinct_nontrivial = distinct inputs completely checked.",
     "assumptions": ["exact i128 products of the harness", "inputs outside the stated domain ((F,G) = 0, coefficients >= 2^24) are not generated"],
-    "legs": [{"name": "synthetic"}, {"name": "captured", "skip_if_violated": True}],
+    "legs": [{"name": "synthetic"}, {"name": "u32-field", "profiles": BOTH}, {"name": "captured", "skip_if_violated": True}],
     "technique": "differential monitor between the two implementations + exact-integer invariant (NTRU form) + idempotence, on synthetic and hook-captured production inputs",
     "level_text": "Sampled over the stated input domain and over inputs captured from real key generation; each execution checked exactly.",
     "level_note": "known finding babai-tie-cycle is reported as KNOWN-FINDING (see known_findings.txt)",
